@@ -1214,6 +1214,11 @@ def extension_cases(tier):
         for a in first:
             for b in second:
                 cases.append({'family': 'error', 'model': mname, 'setters': [a, b]})
+        if tier == 'thorough':
+            for a in first:
+                for b in second:
+                    for c in second:
+                        cases.append({'family': 'error', 'model': mname, 'setters': [a, b, c]})
     return cases
 
 
@@ -2246,8 +2251,8 @@ def bounded_extensions(tier):
         'bound': 'pheno and moxo x {add_covariate_effect: all (individual parameter, covariate, 6 effects, 2 '
                  'operations); add_iiv: 3 parameters x 5 templates; remove_iiv; add_iov: 2 occasion columns x 4 '
                  'parameter lists x 3 distributions; 3 eta transformations x all eta selections; add_allometry: 5 '
-                 'models x 2 reference values x 3 parameter lists x fixed; error models: all sequences of <= 2 of 12 '
-                 f'setters}} = {fam}; each at {K} grid points plus the reference/category/cutoff points',
+                 'models x 2 reference values x 3 parameter lists x fixed; error models: all sequences of <= '
+                 f'{3 if tier == "thorough" else 2} of 12 setters}} = {fam}; each at {K} grid points plus the reference/category/cutoff points',
         'samples': [repr(cases[i]) for i in (0, len(cases) // 2, len(cases) - 1)],
         'fails': fails,
     }
